@@ -59,7 +59,8 @@ RULE = ("a random parameter tree (leaves with 0-4 dated entries incl. nulls, nod
         "and without modifier, reforms of reforms), every operation on any of them, the same path and date re-read "
         "on the changed system and on its relatives in both orders after each change; load_parameters from a generated YAML "
         "directory (nodes as directories or files, index.yaml), assignment of a new node, Reform with reads inside "
-        "apply before/after modify_parameters (1-3 range updates at leaf paths; a bad path; a modifier returning "
+        "apply before/after modify_parameters (1-3 range updates at leaf paths of any depth or at parameters of "
+        "scale brackets, through update() or through the values_history alias; a bad path; a modifier returning "
         "None), modify_parameters on a non-reform, in-place update of the live tree.  A case is non-trivial when a "
         "date read through the system view is read again after the tree was replaced and the two answers differ; "
         "distinct as the whole JSON case")
@@ -434,10 +435,27 @@ def do_read(system, o):
 
 
 def update_at(root, u):
+    """Edit one parameter through one of its handles: update() on the parameter, the same through its
+    backward-compatibility attribute values_history (the parameter itself), on a leaf of any depth or on a
+    parameter of a scale bracket (scale.brackets[i].<field>)."""
     x = root
     for n in u["path"]:
-        x = getattr(x, n)
+        if type(x).__name__ == "ParameterScale" and n.isdigit():
+            x = x.brackets[int(n)]
+        else:
+            x = getattr(x, n)
+    if u.get("via") == "values_history":
+        x = x.values_history
     x.update(start=mk_instant(u["start"]), stop=None if u["stop"] is None else mk_instant(u["stop"]), value=u["v"])
+
+
+def snapshot_others(systems, me, dates):
+    """what every OTHER system's own tree defines at the dates (for the frame part of the oracle)"""
+    out = []
+    for j, x in enumerate(systems):
+        if x is not me:
+            out.append([j, [render(x.parameters(d)) for d in dates]])
+    return out
 
 
 def exec_ops(systems, ops, out):
@@ -487,8 +505,14 @@ def exec_ops(systems, ops, out):
                     for u in o["ups"]:
                         update_at(parameters, u)
                     return parameters if o["returns"] else None
-                system.modify_parameters(modifier)
-                ans = DONE
+                dates = sorted({u["start"] for u in o["ups"]})
+                before = snapshot_others(systems, system, dates)
+                try:
+                    system.modify_parameters(modifier)
+                finally:
+                    after = snapshot_others(systems, system, dates)
+                    leaked = [[j, d] for (j, b), (_, a) in zip(before, after) for d, x, y in zip(dates, b, a) if x != y]
+                ans = [None, [], leaked]
             else:
                 # which systems are bound to the very object that is mutated (for the oracle)
                 shared = [j for j, x in enumerate(systems) if x.parameters is system.parameters]
@@ -498,6 +522,8 @@ def exec_ops(systems, ops, out):
             ans = [Err(errkind(e), f"{type(e).__name__}: {e}"[:200]), []]
             if k == "read":
                 ans.append(ref)
+            if k == "modify":
+                ans.append(leaked)
         out.append(ans)
 
 
@@ -602,6 +628,11 @@ def oracle(c, obs):
                 tainted.update(a[2] if len(a) > 2 else [me])
             continue
         if k in ("load", "modify"):
+            if k == "modify" and len(a) > 2 and a[2]:
+                j, d = a[2][0]
+                return (f"frame: operation {n} (modify_parameters of system {me}, updates "
+                        f"{[(u['path'], u.get('via', 'update'), u['start'], u['v']) for u in o['ups']]}) changed what "
+                        f"system {j}'s own tree defines at {d}: a modifier works on a copy")
             if not is_err(a[0]) and (k == "load" or o["returns"]):
                 tainted.discard(me)
             continue
@@ -938,15 +969,38 @@ def gen_read(rng, tree, hot, dates, route=None, path=None, date=None):
             "path": path, "date": date, "form": rng.randrange(3), "tail": gen_tail(rng, sub)}
 
 
+def scale_params(tree):
+    """paths of the parameters of scale brackets: <scale path> + [index, field]"""
+    out = []
+    for p, s_ in all_paths(tree):
+        if s_["t"] == "scale":
+            for i, b in enumerate(s_["brackets"]):
+                out += [p + [str(i), f] for f in ("threshold", "rate", "amount", "average_rate") if b.get(f) is not None]
+    return out
+
+
 def gen_update(rng, tree, pool, bad=False):
     leaves = [p for p, s in all_paths(tree) if s["t"] == "param"]
+    brackets = scale_params(tree)
     a, b = sorted((rng.choice(pool), rng.choice(pool)))
+    v = rng.choice(NEWVALUES)
     if bad or not leaves:
         others = [p for p, s in all_paths(tree) if s["t"] != "param"]
-        path = rng.choice(others) if rng.random() < 0.5 else rng.choice(leaves or [[]]) + ["zz"]
+        r = rng.random()
+        if r < 0.4:
+            path = rng.choice(others)
+        elif r < 0.6 and brackets:
+            path = rng.choice(brackets)
+            path = path[:-2] + rng.choice([["7", path[-1]], [path[-2], "nope"], [path[-2]], path[-2:] + ["x"]])
+        else:
+            path = rng.choice(leaves or [[]]) + ["zz"]
+    elif brackets and rng.random() < 0.15:
+        path = rng.choice(brackets)
+        v = rng.choice([0, 0.25, 0.5, 5, 10, 100])           # keeps scale arithmetic on generated values exact
     else:
         path = rng.choice(leaves)
-    return {"path": path, "start": iso(a), "stop": iso(b) if rng.random() < 0.5 else None, "v": rng.choice(NEWVALUES)}
+    return {"path": path, "via": rng.choice(["update", "update", "values_history"]), "start": iso(a),
+            "stop": iso(b) if rng.random() < 0.5 else None, "v": v}
 
 
 def gen_case(rng):
